@@ -13,7 +13,7 @@ Accept(t) == LET r == TLog[t] IN
       Degenerate(r.obs, s) \/
       ( /\ Clause(t, "nse-definition", r.nse = NSE(r.obs, s))
         /\ Clause(t, "bias-standard-definition", r.bias_std = BiasStd(r.obs, s))
-        /\ Clause(t, "bias-normalised-definition", r.bias_norm = BiasNorm(r.obs, s))
+        /\ Clause(t, "bias-normalised-definition", BiasNorm(r.obs, s) = RNaN \/ r.bias_norm = BiasNorm(r.obs, s))    \* mean(sim) = -mean(obs): undefined
         /\ Clause(t, "nse-at-most-one", RLe(r.nse, R(1))) )
    ELSE
       /\ Clause(t, "score-on-transformed-series", r.a - r.b \in -2..2)
